@@ -67,3 +67,50 @@ func (c *clipperD) VSetOptions(preserveCollinear, reverseSolution bool) {
 	c.preserveCollinear = preserveCollinear
 	c.reverseSolution = reverseSolution
 }
+
+// VEdge describes one active edge of a synthetic active-edge list (winding-count probes).
+type VEdge struct {
+	WindDx, WindCount, WindCount2 int
+	PolyType                      PathType
+	IsOpen                        bool
+}
+
+func vSynthAEL(c *clipperBase, edges []VEdge) []*Active {
+	out := make([]*Active, len(edges))
+	for i, e := range edges {
+		out[i] = vSynthActive(e.PolyType, e.IsOpen, e.WindDx, e.WindCount, e.WindCount2)
+		if i > 0 {
+			out[i].prevInAEL = out[i-1]
+			out[i-1].nextInAEL = out[i]
+		}
+	}
+	if len(out) > 0 {
+		c.actives = out[0]
+	}
+	return out
+}
+
+// VSetWindCount links left (leftmost first) and e into an active-edge list and runs the real
+// setWindCountForClosedPathEdge / setWindCountForOpenPathEdge on e.
+func VSetWindCount(fr FillRule, left []VEdge, e VEdge) (windCount, windCount2 int) {
+	c := newClipperBase()
+	c.fillRule = fr
+	ael := vSynthAEL(c, append(append([]VEdge{}, left...), e))
+	ae := ael[len(ael)-1]
+	if e.IsOpen {
+		c.setWindCountForOpenPathEdge(ae)
+	} else {
+		c.setWindCountForClosedPathEdge(ae)
+	}
+	return ae.windCount, ae.windCount2
+}
+
+// VIntersectWind runs the real intersectEdges on two adjacent cold closed edges and returns
+// their winding counts afterwards.
+func VIntersectWind(ct ClipType, fr FillRule, e1, e2 VEdge) (wc1, wc21, wc2, wc22 int) {
+	c := newClipperBase()
+	c.fillRule, c.clipType = fr, ct
+	ael := vSynthAEL(c, []VEdge{e1, e2})
+	c.intersectEdges(ael[0], ael[1], Point64{})
+	return ael[0].windCount, ael[0].windCount2, ael[1].windCount, ael[1].windCount2
+}
